@@ -31,3 +31,10 @@ def run(ctx, proofs_ok):
         {"label": "transactions on 3 connections incl. sorted sets and scans", "fams": ["strings", "keyspace", "zs", "lists", "tx", "tx"],
          "n": (2500, 8000), "count": (2, 20), "conns": 3},
     ], extra=[("scripted transaction scenarios (nested MULTI, aborts, runtime errors, interleaved clients)", scripted())])
+    if ctx.violations:
+        return
+    # real concurrency: another connection must never see the middle of a transaction
+    from checks import conc
+    q = ctx.tier == "quick"
+    conc.run_scenarios(ctx, [("tcp-exec-isolation", 15 if q else 150, w) for w in ((0, 25) if q else (0, 10, 30, 60))],
+                       "EXEC isolation under concurrent connections (observers use MGET and their own MULTI/EXEC)")
